@@ -154,6 +154,55 @@ Proof.
   reflexivity.
 Qed.
 
+(* the record-type digit and the addenda type-code columns follow from the layout's shape:
+   these conjuncts of [dispatchb] only depend on the record type / on the TypeCode field *)
+Definition kind_digit (k : string) : option N :=
+  match layout_of LT k with
+  | Some L => match l_segs L with SLit [c] :: _ => Some c | _ => None end
+  | None => None
+  end.
+
+Lemma record_type_digits :
+  map (fun L => (l_name L, kind_digit (l_name L))) all_layouts =
+  [ ("ADVBatchControl", Some T8); ("ADVEntryDetail", Some T6); ("ADVFileControl", Some T9)
+  ; ("Addenda02", Some T7); ("Addenda05", Some T7); ("Addenda10", Some T7); ("Addenda11", Some T7); ("Addenda12", Some T7)
+  ; ("Addenda13", Some T7); ("Addenda14", Some T7); ("Addenda15", Some T7); ("Addenda16", Some T7); ("Addenda17", Some T7)
+  ; ("Addenda18", Some T7); ("Addenda98", Some T7); ("Addenda98Refused", Some T7); ("Addenda99", Some T7)
+  ; ("Addenda99Contested", Some T7); ("Addenda99Dishonored", Some T7)
+  ; ("BatchControl", Some T8); ("BatchHeader", Some T5); ("EntryDetail", Some T6); ("FileControl", Some T9)
+  ; ("FileHeader", Some T1); ("IATBatchHeader", Some T5); ("IATEntryDetail", Some T6) ].
+Proof. vm_compute. reflexivity. Qed.
+
+Lemma line_digit x c : kind_digit (r_kind x) = Some c -> rtype (render_rec LT x) = c.
+Proof.
+  unfold kind_digit, render_rec. destruct (layout_of LT (r_kind x)) as [L|]; [|discriminate].
+  destruct (l_segs L) as [|s1 rest] eqn:E; [discriminate|].
+  destruct s1 as [l|? ?|? ?|? ?|?|?|? ?|?]; try discriminate.
+  destruct l as [|c' l']; [discriminate|]. destruct l'; [|discriminate].
+  intros H. injection H as <-. now apply (rendered_first_byte L _ c' rest).
+Qed.
+
+Definition type_code_shape (L : layout) : bool :=
+  match l_segs L with SLit [_] :: SRaw f :: _ => String.eqb f "TypeCode" | _ => false end.
+
+Lemma addenda_type_code_shapes :
+  forallb (fun L => if String.prefix "Addenda" (l_name L) then type_code_shape L else true) all_layouts = true.
+Proof. vm_compute. reflexivity. Qed.
+
+Lemma line_type_code x L : layout_of LT (r_kind x) = Some L -> type_code_shape L = true ->
+  length (gets (r_val x) "TypeCode") = 2 ->
+  bsub (render_rec LT x) (fst tag_cols) (snd tag_cols) = gets (r_val x) "TypeCode".
+Proof.
+  unfold render_rec, type_code_shape. intros -> Hs Hl.
+  destruct (l_segs L) as [|s1 rest1] eqn:E; [discriminate|].
+  destruct s1 as [l|? ?|? ?|? ?|?|?|? ?|?]; try discriminate.
+  destruct l as [|c l']; [discriminate|]. destruct l'; [|discriminate].
+  destruct rest1 as [|s2 rest]; [discriminate|].
+  destruct s2 as [?|? ?|? ?|? ?|f|?|? ?|?]; try discriminate.
+  apply String.eqb_eq in Hs. subst f.
+  now apply (rendered_type_code L _ c "TypeCode" rest).
+Qed.
+
 (* ------------------------------------------------------------------ *)
 (* 3. non-vacuity                                                       *)
 
@@ -303,6 +352,26 @@ Lemma iat_detection_needed :
 Proof.
   cbv zeta. split; [vm_compute; reflexivity|]. split; [vm_compute; reflexivity|].
   vm_compute. discriminate.
+Qed.
+
+(* known finding roundtrip:dispatch:company-name-iatcor: a standard batch of a company named IATCOR
+   is taken for an IAT (notification of change) header; every record-level hypothesis holds *)
+Definition rename_company (name : string) (f : fileR) : fileR :=
+  match fl_batches f with
+  | mkBat h es c :: bs =>
+      mkFil (fl_hdr f) (mkBat (mkRec (r_kind h) (("CompanyName", VS (bstr name)) :: r_val h)) es c :: bs) (fl_iat f) (fl_ctl f)
+  | _ => f
+  end.
+
+Lemma company_iatcor_refuted :
+  let f := rename_company "IATCOR" ex_std in
+  all_file (rec_fitsb LT) f = true /\ all_file (rec_stableb LT) f = true /\ dispatchb LT f = false
+  /\ iat_line (render_rec LT (bt_hdr (hd (mkBat a02 [] a02) (fl_batches f)))) = true
+  /\ read_file LT (write_file LT f) <> Some (parsed_file LT f)
+  /\ hyps (rename_company "IATCORP" ex_std) = true.
+Proof.
+  cbv zeta. split; [vm_compute; reflexivity|]. split; [vm_compute; reflexivity|]. split; [vm_compute; reflexivity|].
+  split; [vm_compute; reflexivity|]. split; [vm_compute; discriminate|vm_compute; reflexivity].
 Qed.
 
 (* since the fix 272ca522 the detection counts characters: three 2-byte characters in the company
